@@ -123,6 +123,16 @@ def _frames(g, cfg, prefix, framer_names, P, aux_names, slave_names, is_aux=Fals
                 over = g.choice(cands)
         depth[name] = 0 if over is None else depth[over] + 1
         frames.append({"name": name, "over": over, "acts": []})
+    if len(frames) > 1 and cfg.get("p_shuffle_decl", 0.15):
+        # Declaration order is free in FloScript (a frame may name an over frame that is declared later); it decides 'next',
+        # the default primary child and the order in which the builder traces outlines.  The decision and the permutation
+        # come from a side generator seeded by the main generator's *state* (not by drawing from it), so that the programs
+        # of runs that are not shuffled stay exactly what they were before this knob existed.
+        import hashlib
+        import random as _random
+        side = _random.Random(int(hashlib.sha256(repr(g.getstate()).encode()).hexdigest()[:16], 16))
+        if side.random() < cfg.get("p_shuffle_decl", 0.15):
+            side.shuffle(frames)
     names = [f["name"] for f in frames]
     kids = {}
     for f in frames:
